@@ -406,6 +406,7 @@ let toks line =
 
 (* ---------- heap-level histories ---------- *)
 let nat_of_string s = nat_of_int (int_of_string s)
+let rec int_of_nat = function O -> 0 | S n -> 1 + int_of_nat n
 let width_of = function "8" -> I8 | "16" -> I16 | "32" -> I32 | "64" -> I64 | s -> failwith ("width " ^ s)
 let fwidth_of = function "16" -> F16 | "32" -> F32 | "64" -> F64 | s -> failwith ("fwidth " ^ s)
 let parse_op (ws : string list) : op =
@@ -477,12 +478,37 @@ let run_history (l : n) (cap : n) (mode : string) (k : n) (line : string) : stri
       let parts = String.split_on_char '?' stp in
       let opws = split_ws (List.hd parts) in
       let probes = match parts with [_; p] -> List.map int_of_string (split_ws p) | _ -> [] in
+      let is_val = (match opws with "val" :: _ -> true | _ -> false) in
+      let opws = if is_val then ["ssize"; List.nth opws 1] else opws in
       let o = parse_op opws in
       describe_mode := (match opws with "desc" :: _ -> true | _ -> false);
       (match step refuse l !st o !w with
        | Fault kd -> faulted := true; Buffer.add_string b ("FAULT:" ^ fkind_s kd ^ ";")
        | Ret ((s', ot), w') ->
            st := s'; w := w';
+           if is_val then begin
+             (match o with
+              | OSerSize h ->
+                  (match List.nth_opt (handles s') (int_of_nat h) with
+                   | Some (Some a) ->
+                       (match (!w).heap a with
+                        | Some (CItem (_, nd)) ->
+                            Buffer.add_string b
+                              (match nd with
+                               | NInt (neg, wd, v) -> Printf.sprintf "int:%d:%s:%s" (if neg then 1 else 0) (iw wd) (string_of_n v)
+                               | NFloat (wd, bits) -> Printf.sprintf "float:%s:%s" (fw wd) (hex_of_n bits)
+                               | NCtrl v -> Printf.sprintf "ctrl:%s" (string_of_n v)
+                               | NStr (text, _, bytes) ->
+                                   Printf.sprintf "str:%d:%d:%s" (if text then 1 else 0) (List.length bytes)
+                                     (if text then (match stored_codepoints utf8d bytes with Some c -> string_of_n c | None -> "F") else "-")
+                               | NChunked (text, _, _, _, chunks) -> Printf.sprintf "chunked:%d:%d" (if text then 1 else 0) (List.length chunks)
+                               | NArr (indef, _, _, elems) -> Printf.sprintf "arr:%d:%d" (if indef then 1 else 0) (List.length elems)
+                               | NMap (indef, _, _, pairs) -> Printf.sprintf "map:%d:%d" (if indef then 1 else 0) (List.length pairs)
+                               | NTag (v, _) -> Printf.sprintf "tag:%s" (string_of_n v))
+                        | _ -> Buffer.add_string b "DEAD")
+                   | _ -> Buffer.add_string b "skip")
+              | _ -> ())
+           end else
            Buffer.add_string b (out_s ot o);
            if probes <> [] then begin
              Buffer.add_string b "[";
